@@ -265,7 +265,8 @@ def oracle_structures_vs_files(pcfg, spec, flags):
     Computed from the spec text, independently of the loader."""
     import re
     want = []
-    for st, _p in spec['grammar']:
+    lines = spec['prince'] if flags.get('folder') == 'Prince' else spec['grammar']      # PRINCE-LING reads Prince/grammar.txt
+    for st, _p in lines:
         if st == 'M' and flags.get('skip_brute'):
             continue
         reps = []
@@ -283,10 +284,10 @@ def oracle_structures_vs_files(pcfg, spec, flags):
     # structures, wherever the M line stands
     total = 1.0
     if flags.get('skip_brute'):
-        m = next((float(p) for st, p in spec['grammar'] if st == 'M'), None)
+        m = next((float(p) for st, p in lines if st == 'M'), None)
         if m is not None:
             total = 1.0 - m
-    wantp = [float(p) / total for st, p in spec['grammar'] if not (st == 'M' and flags.get('skip_brute'))]
+    wantp = [float(p) / total for st, p in lines if not (st == 'M' and flags.get('skip_brute'))]
     gotp = [b['prob'] for b in pcfg.base]
     if [f2h(x) for x in gotp] != [f2h(x) for x in wantp]:
         k = next((i for i, (a, b) in enumerate(zip(gotp, wantp)) if f2h(a) != f2h(b)), 0)
